@@ -186,6 +186,11 @@ class SessionView:
         elif req.get("kind") == "error":
             ok = (ntr == 0 and len(sends) == 1
                   and canon_packet(sends[0][1]) == (b"\x00\x05" + be16(req["code"]) + b"\0").hex())
+        elif req.get("kind") == "handler_failed":
+            # a handler raised while being asked: logged, nothing sent, no transfer, same calls up to the failure
+            mc = self.m.get("calls", [])
+            ic = [[c[0], c[1]] for c in self.obs.get("calls", [])]
+            ok = not sends and ntr == 0 and mc == ic
         elif req.get("kind") == "transfer":
             ok = not sends and ntr == 1
             if ok:
@@ -557,6 +562,14 @@ def gen_multi_case(rng, n=None):
     case = {"cfg": first["cfg"], "datagram": readdress(first, 0), "handlers": handlers, "script": first["script"],
             "more": [{"datagram": readdress(p, i), "script": p["script"]} for i, p in enumerate(parts) if i > 0],
             "_meta": {"style": "multi", "handler": "stream"}}
+    if rng.random() < 0.3:
+        # one handler of the list has a bug: it raises while being asked about ANY file name. Requests that reach it
+        # are lost (logged, no reply); requests accepted by an earlier handler - and the server - are unaffected
+        k = rng.randrange(len(handlers))
+        handlers[k] = dict(handlers[k], raise_in=rng.choice(["prepare", "can_handle"]),
+                           raise_kind=rng.choice(["KeyError", "ValueError", "RuntimeError", "OSError", "TypeError",
+                                                  "AttributeError", "LookupError", "Exception", "UnicodeDecodeError"]))
+        case["_meta"]["style"] = "multi-handler-fault"
     return case
 
 
